@@ -127,7 +127,7 @@ bool Buffer::ensureWritableSize(size_t write_size)
 
 void Buffer::hasWritten(size_t write_size)
 {
-    if (write_index_ + write_size > buffer_size_) {
+    if (write_size > (buffer_size_ - write_index_)) {    //! 不用加法比较，write_size 很大时加法会回绕
         write_index_ = buffer_size_;
     } else {
         write_index_ += write_size;
@@ -146,7 +146,7 @@ size_t Buffer::append(const void *p_data, size_t data_size)
 
 void Buffer::hasRead(size_t read_size)
 {
-    if (read_index_ + read_size > write_index_) {
+    if (read_size > (write_index_ - read_index_)) {      //! 不用加法比较，read_size 很大时加法会回绕
         read_index_ = write_index_ = 0;
     } else {
         read_index_ += read_size;
